@@ -120,8 +120,11 @@ def run(report, index, tier):
         raise AnalysisError('Node.__iter__ vanished')
 
     def mk(name, *kids):
-        return Obj('Node', name=name,
-                   children=('pyfunc', lambda kids=kids: list(kids)))
+        # children() hands out the node's own list, as the classes built
+        # on `_children_list` (Program, Block, ...) and Array / Arguments /
+        # Object do: whoever reorders or empties it changes the tree
+        own = list(kids)
+        return Obj('Node', name=name, children=('pyfunc', lambda: own))
 
     def iter_hook(obj):
         ev = Evaluator(am.module, 'Node', {}, {})
@@ -162,6 +165,7 @@ def run(report, index, tier):
         mk('r', mk('a', None, mk('b', leaf('c'))), None, mk('d', leaf('e'))),
         mk('r', leaf('a'), leaf('a')),
     ]
+    nshort = [0]
     for i, tree in enumerate(trees):
         want = preorder(tree)
         for meth in ('walk', 'filter'):
@@ -182,6 +186,47 @@ def run(report, index, tier):
                      'Walker.%s on abstract tree %d (%s)' % (meth, i, want),
                      'yields %s, expected the pre-order %s' % (got, exp),
                      where='walkers.py:Walker.%s' % meth)
+            # walking is an observation: the same tree walked again (by
+            # the same and by the other traversals) gives the same nodes
+            ev = Evaluator(wm, 'Walker', wmethods, {},
+                           is_subclass=lambda c, b: c == b or b == 'Node')
+            ev.iter_hook = iter_hook
+            try:
+                _, ys = ev.call(wmethods[meth], [tree, cond],
+                                self_obj=Obj('Walker'))
+                again = [y.name for y in ys]
+            except Raised as e:
+                again = 'raised %s' % e.text
+            r2.check(again == exp and preorder(tree) == want,
+                     '%s tree%d again' % (meth, i),
+                     'Walker.%s on abstract tree %d a second time' % (
+                         meth, i),
+                     'the second traversal yields %s and the tree now '
+                     'reads %s; the first yielded %s: the traversal changed '
+                     'the tree (children() hands out the node\'s own list)'
+                     % (again, preorder(tree), exp),
+                     where='walkers.py:Walker.%s' % meth)
+        # the module-level shortcuts are the same traversal
+        for fname, fdef in sorted(wm.functions.items()):
+            if fname.startswith('_') or len(fdef.args.args) != 1:
+                continue
+            nshort[0] += 1
+            ev = Evaluator(wm, None, {}, {},
+                           is_subclass=lambda c, b: c == b or b == 'Node',
+                           class_methods={'Walker': wmethods},
+                           class_own={'Walker': wmethods})
+            ev.instantiate_classes = True
+            ev.iter_hook = iter_hook
+            try:
+                ret, ys = ev.call(fdef, [tree])
+                got = [y.name for y in (ys if ys else (ret or []))]
+            except Raised as e:
+                got = 'raised %s' % e.text
+            r2.check(got == want, 'shortcut %s tree%d' % (fname, i),
+                     'walkers.%s on abstract tree %d (%s)' % (
+                         fname, i, want),
+                     'yields %s, expected the pre-order %s' % (got, want),
+                     where='walkers.py:%s' % fname)
         # extract: n-th match or TypeError
         matches = [n for n in want if n != 'a']
         for skip in [-2, -1] + list(range(0, len(matches) + 1)):
@@ -304,6 +349,9 @@ def run(report, index, tier):
                          where='walkers.py:Walker.%s / asttypes.py:%s' % (
                              meth, cls))
     report.count('node classes walked', nclass)
+    report.count('module-level shortcut evaluations', nshort[0])
+    if not nshort[0]:
+        raise AnalysisError('walkers.walk (module-level shortcut) vanished')
     report.informational.append(
         'the `comments` attribute is attached by setpos and deliberately '
         'not part of children(): observation, outside R16.1')
